@@ -40,7 +40,8 @@ LEVEL = "model_checking"
 FUNCTIONS = ["aldy.coverage.Coverage.{filtered,quality_filter,basic_filter}",
              "aldy.major._filter_alleles (filter_fns)", "aldy.major.estimate_major",
              "aldy.minor.estimate_minor (default_filter_fn)", "aldy.cn._filter_configs",
-             "aldy.major.solve_major_model", "aldy.minor.solve_minor_model"]
+             "aldy.major.solve_major_model", "aldy.minor.solve_minor_model",
+             "aldy.profile.Profile.{__init__,update,load} (threshold routes, shared with C18)"]
 STUBS = ["threshold/backed: observation lists have symbolic lengths; the real "
          "Coverage.coverage/total/filtered and the real filter functions run on them (the "
          "predicate's symbolic truth value forks the path); the quality filter on such lists "
@@ -87,6 +88,10 @@ def configs(tier):
                   "mapq0": True})
     c.append({"kind": "consumes"})
     c.append({"kind": "phase"})
+    # the thresholds that decide which observations count reach the Profile object through
+    # every configuration route (shared with C18: constructor / update / profile options /
+    # explicit parameter beats the option of the profile file)
+    c.append({"kind": "thresholdroute"})
     return c
 
 
@@ -770,6 +775,58 @@ def replay_counts(o):
                     bad.append(f"allele {a}")
         msg = f"{bad} candidate status against qualifying support"
     return bool(bad), msg + f" [counts x100 {o['counts']} thr {o['thr']} min {o['mc']}]"
+
+
+THRESHOLDS = ("min_quality", "min_mapq", "threshold", "min_coverage")
+
+
+def run_thresholdroute(cfg):
+    import c18
+
+    res = new_result(cfg)
+    eng = Engine(name="c15t")
+    fv = c18.frame_values()
+    names = sorted(fv)
+    ths = [t for t in THRESHOLDS if t in fv]
+    ai, bi, ri, oi = z3.Int("a"), z3.Int("b"), z3.Int("route"), z3.Int("order")
+
+    def run():
+        a = ths[eng.choose(ai, range(len(ths)))]
+        b = names[eng.choose(bi, range(len(names)))]
+        if a == b:
+            raise symx.PathAbort()
+        r = c18.FRAME_ROUTES[eng.choose(ri, range(len(c18.FRAME_ROUTES)))]
+        if eng.choose(oi, range(2)):
+            a, b = b, a
+        # only the thresholds themselves are this property's business
+        return (a, b, r), [p for p in c18.frame_case(a, b, r, fv)
+                           if p.split(" ")[0] in THRESHOLDS or p.startswith("rejected")]
+
+    k = 0
+    for dec, pc, ((a, b, r), probs) in eng.explore(run, [], max_paths=100000):
+        k += 1
+        ob(res, "thresholdroute: a quality / support threshold given together with another "
+                "parameter reaches the profile through every route", "holds" if not probs
+           else "sat")
+        if probs:
+            res["violations"].append({
+                "what": f"parameters {a}={fv[a][0]!r}, {b}={fv[b][0]!r} via {r}: "
+                        + "; ".join(probs[:3]), "key": f"thresholdroute:{r}:{probs[0].split(' ')[0]}",
+                "replay": {"kind": "thresholdroute", "a": a, "b": b, "route": r}})
+    seen = {}
+    for v_ in res["violations"]:
+        seen.setdefault(v_["key"], v_)
+    res["violations"] = list(seen.values())
+    res["stats"] = {**dict(eng.stats), "paths": k}
+    return res
+
+
+def replay_thresholdroute(o):
+    import c18
+
+    probs = [p for p in c18.frame_case(o["a"], o["b"], o["route"])
+             if p.split(" ")[0] in THRESHOLDS or p.startswith("rejected")]
+    return bool(probs), f"{o['a']} / {o['b']} via {o['route']}: {probs[:3]}"
 
 
 def replay_none(o):
